@@ -18,7 +18,7 @@ R20.5 writer preference shape: readers pass through the queue lock and the no_re
 import ast
 
 from sa.model import AnalysisError, mangle, norm_text
-from .common import world
+from .common import as_update, world
 
 
 def is_lock_ctor(v):
@@ -158,8 +158,9 @@ def run(chk):
         delta = None
         if upd:
             u = upd[0][3]
-            if isinstance(u, ast.AugAssign) and isinstance(u.value, ast.Constant) and u.value.value == 1:
-                delta = +1 if isinstance(u.op, ast.Add) else -1 if isinstance(u.op, ast.Sub) else None
+            uu = as_update(u)
+            if uu is not None and isinstance(uu[2], ast.Constant) and uu[2].value == 1:
+                delta = +1 if uu[1] is ast.Add else -1 if uu[1] is ast.Sub else None
         want = None
         if cond and delta is not None:
             want = ("acquire", "== 1") if delta == 1 else ("release", "== 0")
